@@ -22,3 +22,24 @@ package reachability
 // Not required to be visited: MultiConvert.X (only in uninstantiated generic bodies),
 // SliceToArrayPointer.X (a slice, never itself a function value), Defer.DeferStack
 // (the implicit defer stack of range-over-func bodies, never a function value).
+
+// C18: findCallees hands EVERY instruction of the function to the operand traversal
+// above (that is how static callees, closures and functions that are only mentioned
+// are discovered), and every interface conversion to findInterfaceCallees (that is
+// how methods callable through the interface are discovered). WI() is an arbitrary
+// instruction of f.
+//@ macro WI() = f.Blocks[bi].Instrs[ii]
+//@ func findCallees
+//@   property C18
+//@   ghost bi int
+//@   ghost ii int
+//@   requires f != nil ==> 0 <= bi && bi < len(f.Blocks) && f.Blocks[bi] != nil && 0 <= ii && ii < len(f.Blocks[bi].Instrs) && WI() != nil && ref(WI()) != 0
+//@   requires forall b int, i int :: f != nil && 0 <= b && b < len(f.Blocks) && 0 <= i && i < len(f.Blocks[b].Instrs) && f.Blocks[b].Instrs[i] != nil ==> ref(f.Blocks[b].Instrs[i]) != 0
+//@   ensures every_instruction_traversed: f != nil ==> called(preTraversalVisitValuesInstruction, WI(), _, _)
+//@   ensures interface_conversions: f != nil && istype(WI(), *ssa.MakeInterface) ==> called(findInterfaceCallees, program, WI().(*ssa.MakeInterface).Type(), WI().(*ssa.MakeInterface).X, _)
+//@   loop 1 invariant conv_b: bi < iter(1) && istype(WI(), *ssa.MakeInterface) ==> called(findInterfaceCallees, program, WI().(*ssa.MakeInterface).Type(), WI().(*ssa.MakeInterface).X, _)
+//@   loop 2 invariant conv_i: (bi < iter(1) || (bi == iter(1) && ii < iter(2))) && istype(WI(), *ssa.MakeInterface) ==> called(findInterfaceCallees, program, WI().(*ssa.MakeInterface).Type(), WI().(*ssa.MakeInterface).X, _)
+//@   loop 3 invariant conv_3: istype(WI(), *ssa.MakeInterface) ==> called(findInterfaceCallees, program, WI().(*ssa.MakeInterface).Type(), WI().(*ssa.MakeInterface).X, _)
+//@   loop 4 invariant conv_4: istype(WI(), *ssa.MakeInterface) ==> called(findInterfaceCallees, program, WI().(*ssa.MakeInterface).Type(), WI().(*ssa.MakeInterface).X, _)
+//@   loop 3 invariant trav_b: bi < iter(3) ==> called(preTraversalVisitValuesInstruction, WI(), _, _)
+//@   loop 4 invariant trav_i: bi < iter(3) || (bi == iter(3) && ii < iter(4)) ==> called(preTraversalVisitValuesInstruction, WI(), _, _)
